@@ -414,8 +414,26 @@ func (t *T) Translate(r Root) error {
 	return err
 }
 
+// excluded: functions named in $VERIF_XLATE_EXCLUDE (comma separated full names) are treated as outside the
+// subset.  The check sets it when a generated definition does not elaborate (a translator limitation met on
+// the current source): the definition and everything that calls it are then left out, so that only the tie
+// theorems that need them break instead of the whole generated module.
+func excluded(fn string) bool {
+	for _, e := range strings.Split(os.Getenv("VERIF_XLATE_EXCLUDE"), ",") {
+		if e != "" && e == fn {
+			return true
+		}
+	}
+	return false
+}
+
 func (t *T) ensure(dir, recv, name string) (string, error) {
 	fn := fullName(dir, recv, name)
+	if excluded(fn) {
+		err := fmt.Errorf("%s: excluded - its generated definition did not elaborate (translator limitation)", fn)
+		t.status[fn] = err.Error()
+		return "", err
+	}
 	switch st := t.status[fn]; st {
 	case "ok":
 		return t.lean[fn], nil
